@@ -1,3 +1,5 @@
+#include <unistd.h>
+#include <cstdlib>
 #include "recbackend.h"
 #include "recjson.h"
 #include "mp/flat/model_api_base.h"
@@ -34,6 +36,16 @@ void rec_fault(const char *site) {
   if (kind == "systemError") throw fmt::SystemError(ENOENT, "{}", msg);
   if (kind == "stdExn") throw std::runtime_error(msg);
   if (kind == "foreign") throw 42;
+  // not exceptions: the process is killed / never returns (C09 Pipeline.lean: Beh.aborts, Beh.hangs)
+  if (kind == "abort") std::abort();
+  if (kind == "hang") for (;;) ::pause();
+}
+
+bool rec_feature(const char *name) {
+  const char *f = std::getenv("RECSOLVER_FEATURES");
+  if (!f) return true;
+  std::string list = std::string(",") + f + ",";
+  return list.find(std::string(",-") + name + ",") == std::string::npos;
 }
 
 std::unique_ptr<BasicModelManager>
@@ -211,6 +223,7 @@ void RecBackend::SetBasis(SolutionBasis basis) {
 }
 
 void RecBackend::AddPrimalDualStart(Solution sol0) {
+  if (!rec_feature("WARMSTART")) { BaseBackend::AddPrimalDualStart(sol0); return; }   // a driver without the feature
   auto mv = GetValuePresolver().PresolveSolution({sol0.primal, sol0.dual});
   auto x0 = mv.GetVarValues()();
   auto pi0 = mv.GetConValues()(CG_Linear);
@@ -220,6 +233,7 @@ void RecBackend::AddPrimalDualStart(Solution sol0) {
 }
 
 void RecBackend::AddMIPStart(ArrayRef<double> x0, ArrayRef<int> sparsity) {
+  if (!rec_feature("MIPSTART")) { BaseBackend::AddMIPStart(x0, sparsity); return; }
   std::string extra;
   if (std::getenv("RECSOLVER_C04")) {        // presolve as GurobiBackend::AddMIPStart does
     auto mv = GetValuePresolver().PresolveSolution({x0});
